@@ -63,8 +63,37 @@ func (o MSOp) String() string {
 
 var msKeys = []string{"", "a", "b", "ab", "ba", "abc", "b0", "é", "a b"}
 
+// mval is the map's value type: a struct with a reference-typed and an
+// omitempty field, so that a decoder that reuses storage between entries, or
+// an aliasing bug between versions, becomes visible. The model keeps the int.
+type mval struct {
+	N int   `json:"n" yaml:"n"`
+	L []int `json:"l,omitempty" yaml:"l,omitempty"`
+}
+
+func mv(n int) mval {
+	v := mval{N: n}
+	for i := 0; i < n%4; i++ {
+		v.L = append(v.L, n*10+i)
+	}
+	return v
+}
+
+func (v mval) ok() bool {
+	w := mv(v.N)
+	if len(w.L) != len(v.L) {
+		return false
+	}
+	for i := range w.L {
+		if w.L[i] != v.L[i] {
+			return false
+		}
+	}
+	return true
+}
+
 type mapMember struct {
-	m      part.Map[string, int]
+	m      part.Map[string, mval]
 	want   map[string]int
 	origin string
 }
@@ -76,7 +105,7 @@ type setMember struct {
 }
 
 type openTxn struct {
-	txn    part.MapTxn[string, int]
+	txn    part.MapTxn[string, mval]
 	want   map[string]int
 	origin string
 }
@@ -104,9 +133,16 @@ func sortedSet(m map[string]struct{}) []string {
 	return out
 }
 
-func collectSeq2(seq func(func(string, int) bool)) []skv {
+func collectSeq2(seq func(func(string, mval) bool)) []skv {
 	var out []skv
-	seq(func(k string, v int) bool { out = append(out, skv{k, v}); return true })
+	seq(func(k string, v mval) bool {
+		n := v.N
+		if !v.ok() {
+			n = -1000 - v.N // a value whose slice part does not belong to it
+		}
+		out = append(out, skv{k, n})
+		return true
+	})
 	return out
 }
 
@@ -139,7 +175,7 @@ func cloneSet(m map[string]struct{}) map[string]struct{} {
 }
 
 type mapReader interface {
-	Get(string) (int, bool)
+	Get(string) (mval, bool)
 	Len() int
 }
 
@@ -153,11 +189,18 @@ func filterSKV(all []skv, keep func(string) bool) []skv {
 	return out
 }
 
-func checkMapReads(what string, get func(string) (int, bool), length int,
+func checkMapReads(what string, getV func(string) (mval, bool), length int,
 	all, prefix, lower func() []skv, key string, want map[string]int) error {
 	ws := sortedMap(want)
 	if length != len(ws) {
 		return fmt.Errorf("%s: Len()=%d, model %d", what, length, len(ws))
+	}
+	get := func(k string) (int, bool) {
+		v, ok := getV(k)
+		if ok && !v.ok() {
+			return -1000 - v.N, true
+		}
+		return v.N, ok
 	}
 	for _, k := range msKeys {
 		v, ok := get(k)
@@ -178,7 +221,7 @@ func checkMapReads(what string, get func(string) (int, bool), length int,
 	return nil
 }
 
-func checkMap(what string, m part.Map[string, int], key string, want map[string]int) error {
+func checkMap(what string, m part.Map[string, mval], key string, want map[string]int) error {
 	return checkMapReads(what, m.Get, m.Len(),
 		func() []skv { return collectSeq2(m.All()) },
 		func() []skv { return collectSeq2(m.Prefix(key)) },
@@ -186,7 +229,7 @@ func checkMap(what string, m part.Map[string, int], key string, want map[string]
 		key, want)
 }
 
-func checkTxn(what string, t part.MapTxn[string, int], key string, want map[string]int) error {
+func checkTxn(what string, t part.MapTxn[string, mval], key string, want map[string]int) error {
 	return checkMapReads(what, t.Get, t.Len(),
 		func() []skv { return collectSeq2(t.All()) },
 		func() []skv { return collectSeq2(t.Prefix(key)) },
@@ -282,7 +325,11 @@ func runMapSet(c MSCase) (res msResult) {
 				return fail("maptxn", fmt.Errorf("step %d: open map txn #%d (%s): Len()=%d, model %d", step, i, t.origin, t.txn.Len(), len(t.want)))
 			}
 			for _, k := range msKeys {
-				v, ok := t.txn.Get(k)
+				vv, ok := t.txn.Get(k)
+				v := vv.N
+				if ok && !vv.ok() {
+					v = -1000 - vv.N
+				}
 				wv, wok := t.want[k]
 				if ok != wok || (ok && v != wv) {
 					return fail("maptxn", fmt.Errorf("step %d: open map txn #%d (%s): Get(%q)=%d,%v, model %d,%v", step, i, t.origin, k, v, ok, wv, wok))
@@ -297,7 +344,7 @@ func runMapSet(c MSCase) (res msResult) {
 		case mSet:
 			m, idx := pickM(o.A)
 			note(m, idx)
-			nm := m.m.Set(o.Key, o.Val)
+			nm := m.m.Set(o.Key, mv(o.Val))
 			w := cloneMap(m.want)
 			w[o.Key] = o.Val
 			maps = append(maps, &mapMember{nm, w, fmt.Sprintf("Set(%q) at step %d on #%d", o.Key, step, idx)})
@@ -317,14 +364,16 @@ func runMapSet(c MSCase) (res msResult) {
 			m, idx := pickM(o.A)
 			note(m, idx)
 			hm := map[string]int{}
+			hmv := map[string]mval{}
 			for i, k := range o.Keys {
 				v := 100 + i
 				if i < len(o.Vals) {
 					v = o.Vals[i]
 				}
 				hm[k] = v
+				hmv[k] = mv(v)
 			}
-			nm := part.FromMap(m.m, hm)
+			nm := part.FromMap(m.m, hmv)
 			w := cloneMap(m.want)
 			overlap := false
 			for k, v := range hm {
@@ -346,7 +395,7 @@ func runMapSet(c MSCase) (res msResult) {
 		case mTxnSet:
 			if len(txns) > 0 {
 				t := txns[o.B%len(txns)]
-				t.txn.Set(o.Key, o.Val)
+				t.txn.Set(o.Key, mv(o.Val))
 				t.want[o.Key] = o.Val
 			}
 		case mTxnDelete:
@@ -404,7 +453,7 @@ func runMapSet(c MSCase) (res msResult) {
 				err = fail("map-json", fmt.Errorf("json.Marshal of member #%d: %v", idx, e))
 				break
 			}
-			var back part.Map[string, int]
+			var back part.Map[string, mval]
 			if e := json.Unmarshal(bs, &back); e != nil {
 				err = fail("map-json", fmt.Errorf("json.Unmarshal(%s): %v", bs, e))
 				break
@@ -422,7 +471,7 @@ func runMapSet(c MSCase) (res msResult) {
 				err = fail("map-yaml", fmt.Errorf("yaml.Marshal of member #%d: %v", idx, e))
 				break
 			}
-			var yback part.Map[string, int]
+			var yback part.Map[string, mval]
 			if e := yaml.Unmarshal(ys, &yback); e != nil {
 				err = fail("map-yaml", fmt.Errorf("yaml.Unmarshal(%q): %v", ys, e))
 				break
